@@ -133,3 +133,41 @@ func c16Converters(r *ev.Result, base string, depth int) {
 	r.AddDistinct(n)
 	r.Set("converter_history_conversions", n)
 }
+
+// c16Links: scripts reached through symbolic links whose targets are called
+// something else (a versioned name, a name without extension): the function
+// is named after the name the operator gave, and is converted as Perl because
+// that name says so.
+func c16Links(r *ev.Result, base string) {
+	root := filepath.Join(base, "links")
+	tools, funcs := filepath.Join(root, "tools"), filepath.Join(root, "funcs")
+	os.MkdirAll(tools, 0o755)
+	os.MkdirAll(funcs, 0o755)
+	defer os.RemoveAll(root)
+	os.Symlink("funcs", filepath.Join(root, "funcslink"))
+	n := 0
+	for k, script := range c16ConvScripts {
+		for _, target := range []string{fmt.Sprintf("tool%d_v2.pl", k), fmt.Sprintf("tool%d", k), fmt.Sprintf("tool%d.sh", k)} {
+			os.WriteFile(filepath.Join(tools, target), []byte(script), 0o644)
+			link := filepath.Join(funcs, "up.pl")
+			os.Remove(link)
+			if err := os.Symlink(filepath.Join("..", "tools", target), link); nil != err {
+				ev.Broken("%s", err)
+			}
+			for _, source := range []string{link, funcs, filepath.Join(root, "funcslink", "up.pl"), filepath.Join(root, "funcslink")} {
+				rel, _ := filepath.Rel(root, source)
+				c := c16Case{Class: "linked-script", Script: script, Shell: rel + " -> tools/" + target}
+				out, err := shellfuncsfile.NewDefaultConverter().From(source)
+				n++
+				if nil != err {
+					r.Violate(ev.Violation{Signature: "static/conversion-failed/linked-script", What: fmt.Sprintf("source %s, where up.pl is a symbolic link to ../tools/%s: %v", rel, target, err), Kind: "c16conv", Replay: c})
+					continue
+				}
+				c16Static(r, c, "up.pl", out)
+			}
+		}
+	}
+	r.Add(n)
+	r.AddDistinct(n)
+	r.Set("linked_script_conversions", n)
+}
